@@ -46,6 +46,7 @@ type predCase struct {
 	Tail    []predPkg   `json:"tail"`
 	scopeOf []string    // "<iface>.<method>" per scope ("<iface>.[tparams]")
 	nParams []int       // number of parameters (record fields) per scope, -1 for type-parameter scopes
+	scopePkgs [][]string // import paths the scope's variable types mention
 }
 
 // Prediction is what the Registry and Scope models say about one case.
@@ -61,6 +62,7 @@ type Prediction struct {
 	ScopeOf []string     `json:"-"`
 	NParams []int        `json:"-"`
 	FieldDup bool        `json:"-"`
+	LateCapture bool     `json:"-"` // a variable's final name equals the final qualifier of a package its own method uses
 }
 
 // walk lists the packages of a type in the order populateImports meets them.
@@ -147,6 +149,16 @@ func buildPred(c *Case) *predCase {
 			pc.Scopes = append(pc.Scopes, sc)
 			pc.scopeOf = append(pc.scopeOf, it.Name+"."+m.Name)
 			pc.nParams = append(pc.nParams, len(m.Params))
+			var used []string
+			for _, v := range sc {
+				for _, k := range v.Pkgs {
+					used = append(used, k.Path)
+				}
+			}
+			for len(pc.scopePkgs) < len(pc.Scopes)-1 {
+				pc.scopePkgs = append(pc.scopePkgs, nil)
+			}
+			pc.scopePkgs = append(pc.scopePkgs, used)
 		}
 	}
 	if anyMethod {
@@ -171,10 +183,12 @@ func Predict(sc *core.Scratch, ev *core.Evidence, tag string, cases []*Case) (ma
 	enc := json.NewEncoder(&buf)
 	scopeOf := map[int][]string{}
 	nParams := map[int][]int{}
+	scopePkgs := map[int][][]string{}
 	for _, c := range cases {
 		pc := buildPred(c)
 		scopeOf[c.ID] = pc.scopeOf
 		nParams[c.ID] = pc.nParams
+		scopePkgs[c.ID] = pc.scopePkgs
 		enc.Encode(pc)
 	}
 	cfg := "SPECIFICATION Spec\nCONSTANTS\n  CaseFile = \"cases.ndjson\"\nINVARIANTS Done\n"
@@ -198,6 +212,30 @@ func Predict(sc *core.Scratch, ev *core.Evidence, tag string, cases []*Case) (ma
 		if json.Unmarshal([]byte(s), &p) == nil {
 			p.ScopeOf = scopeOf[p.Case]
 			p.NParams = nParams[p.Case]
+			// late alias capture: in some outcome a variable is finally called like the
+			// qualifier finally given to a package its own method refers to
+			for _, reg := range p.Finals {
+				q := map[string]string{}
+				for _, pq := range reg {
+					if len(pq) == 2 {
+						q[pq[0]] = pq[1]
+					}
+				}
+				for si, alts := range p.Names {
+					if si >= len(scopePkgs[p.Case]) {
+						continue
+					}
+					for _, names := range alts {
+						for _, n := range names {
+							for _, path := range scopePkgs[p.Case][si] {
+								if q[path] == n {
+									p.LateCapture = true
+								}
+							}
+						}
+					}
+				}
+			}
 			for si, alts := range p.Names {
 				if si >= len(p.NParams) || p.NParams[si] < 0 {
 					continue
